@@ -4,10 +4,10 @@ CONSTANTS
     Delays = {"none", "short", "long"}
     Prompts = {"fast", "slow"}
     Signals = {"none", "one", "stream"}
-    OnEintr = "fail"
+    OnEintr = "restart"
     DeadlineFrom = "io"
     EofCheck = "eof"
     WriteMode = "nosignal"
-    EmitEdges = TRUE
+    EmitEdges = FALSE
 INVARIANTS PamSuccessOnlyOnOK PamSuccessOnOK PamYieldsCode
 PROPERTIES PamTerminates
